@@ -410,7 +410,9 @@ def _pat(rng, d=2):
     k = rng.randint(0, 9 if d > 0 else 3)
     if k == 0: return EVar(rng.randint(0, 2))
     if k == 1: return Symbol('s%d' % rng.randint(0, 2))
-    if k == 2: return MetaVar(rng.randint(0, 3))
+    if k == 2:
+        if rng.random() < 0.7: return MetaVar(rng.randint(0, 3))
+        return MetaVar(rng.randint(0, 3), e_fresh=(EVar(rng.randint(0, 2)),)) if rng.random() < 0.5 else MetaVar(rng.randint(0, 3), positive=(SVar(rng.randint(0, 2)),))
     if k == 3: return bot()
     if k in (4, 5): return Implies(_pat(rng, d - 1), _pat(rng, d - 1))
     if k == 6: return App(_pat(rng, d - 1), _pat(rng, d - 1))
